@@ -395,6 +395,7 @@ def PVal.valuesT : PVal κ → List κ
   | .sized vs => vs
   | .iter vs => vs
   | .scalar v => [v]
+  | .once vs => vs
 
 theorem PVal.values_ok (pv : PVal κ) (h : pv ≠ .sized []) : pv.values = .ok pv.valuesT := by
   cases pv with
@@ -404,6 +405,7 @@ theorem PVal.values_ok (pv : PVal κ) (h : pv ≠ .sized []) : pv.values = .ok p
     | cons v vs => rfl
   | iter vs => rfl
   | scalar v => rfl
+  | once vs => rfl
 
 theorem paramLists_ok (params : List (Nat × PVal κ)) (h : ∀ p ∈ params, p.2 ≠ .sized []) :
     paramLists params = .ok (params.map fun p => (p.1, p.2.valuesT)) := by
@@ -524,5 +526,180 @@ theorem batchOrder_total (cls : Kwargs κ → Prog) (maxSteps : Nat) (per : Int)
   unfold batchOrder
   rw [mapME_ok _ (runRowsT cls maxSteps per) _ (fun r _ => runRows_total cls maxSteps per hp r)]
   simp [List.flatMap]
+
+/-! ### one call of `_make_model_kwargs` per iteration; one-shot iterators -/
+
+theorem product_empty_factor (l : List (Nat × List κ)) (h : ∃ p ∈ l, p.2 = []) : product l = [] := by
+  induction l with
+  | nil => simp at h
+  | cons x xs ih =>
+    obtain ⟨n, vs⟩ := x
+    simp only [product]
+    by_cases hv : vs = []
+    · subst hv; rfl
+    · have : product xs = [] := by
+        apply ih
+        obtain ⟨p, hp, he⟩ := h
+        rcases List.mem_cons.mp hp with rfl | hp
+        · exact absurd he hv
+        · exact ⟨p, hp, he⟩
+      simp [this]
+
+theorem no_empty_sized_of_ok {params : List (Nat × PVal κ)} {kws : List (Kwargs κ)} (h : makeKwargs params = .ok kws) :
+    ∀ p ∈ params, p.2 ≠ .sized [] := by
+  intro p hp he
+  have := paramLists_err params ⟨p, hp, he⟩
+  simp [makeKwargs, this] at h
+
+theorem makeKwargs_eq_product {params : List (Nat × PVal κ)} (h : ∀ p ∈ params, p.2 ≠ .sized []) :
+    makeKwargs params = .ok (product (params.map fun p => (p.1, p.2.valuesT))) := by
+  simp only [makeKwargs, paramLists_ok params h]
+
+theorem iterLoop_reiterable (params : List (Nat × PVal κ)) (kws : List (Kwargs κ))
+    (hre : ∀ p ∈ params, p.2.spent = p.2) (hk : makeKwargs params = .ok kws) (n it : Nat) :
+    iterLoop n it params = .ok ((List.range n).flatMap fun i => kws.map fun kw => (it + i, kw)) := by
+  have hmap : (params.map fun p => (p.1, p.2.spent)) = params := by
+    conv => rhs; rw [← List.map_id params]
+    apply List.map_congr_left
+    intro p hp
+    rw [hre p hp]; rfl
+  induction n generalizing it with
+  | zero => rfl
+  | succ n ih =>
+    simp only [iterLoop, hk, hmap, ih (it + 1)]
+    rw [List.range_succ_eq_map, List.flatMap_cons, List.flatMap_map]
+    simp only [Nat.add_zero, Except.ok.injEq, List.append_cancel_left_eq]
+    congr 1
+    funext i
+    apply List.map_congr_left
+    intro kw _
+    simp only [Prod.mk.injEq, and_true]
+    omega
+
+theorem spent_spent (pv : PVal κ) : pv.spent.spent = pv.spent := by
+  cases pv <;> rfl
+
+/-- once a one-shot iterator among the parameter values is spent, `_make_model_kwargs` yields no configuration -/
+theorem makeKwargs_spent {params : List (Nat × PVal κ)} {kws : List (Kwargs κ)} (hk : makeKwargs params = .ok kws)
+    (hone : ∃ p ∈ params, ∃ vs, p.2 = .once vs) :
+    makeKwargs (params.map fun p => (p.1, p.2.spent)) = .ok [] := by
+  have hne := no_empty_sized_of_ok hk
+  have hne' : ∀ p ∈ params.map (fun p => (p.1, p.2.spent)), p.2 ≠ .sized [] := by
+    intro p hp
+    obtain ⟨q, hq, rfl⟩ := List.mem_map.mp hp
+    have := hne q hq
+    cases hq2 : q.2 <;> simp_all [PVal.spent]
+  rw [makeKwargs_eq_product hne', product_empty_factor]
+  obtain ⟨p, hp, vs, hv⟩ := hone
+  refine ⟨(p.1, (PVal.once ([] : List κ)).valuesT), ?_, rfl⟩
+  simp only [List.map_map, List.mem_map]
+  exact ⟨p, hp, by simp [Function.comp, hv, PVal.spent]⟩
+
+theorem iterLoop_oneshot (params : List (Nat × PVal κ)) (kws : List (Kwargs κ)) (hk : makeKwargs params = .ok kws)
+    (hone : ∃ p ∈ params, ∃ vs, p.2 = .once vs) (n it : Nat) :
+    iterLoop (n + 1) it params = .ok (kws.map fun kw => (it, kw)) := by
+  have hs := makeKwargs_spent hk hone
+  have hrest := iterLoop_reiterable (params.map fun p => (p.1, p.2.spent)) [] (by
+      intro p hp
+      obtain ⟨q, _, rfl⟩ := List.mem_map.mp hp
+      exact spent_spent q.2) hs n (it + 1)
+  simp only [iterLoop, hk, hrest]
+  simp
+
+/-! ### the rows of one run stay together, in the run's order -/
+
+theorem mapME_mem {f : α → Except Err β} {l : List α} {ys : List β} (h : mapME f l = .ok ys) :
+    ∀ y ∈ ys, ∃ x ∈ l, f x = .ok y := by
+  induction l generalizing ys with
+  | nil => simp [mapME] at h; subst h; simp
+  | cons x xs ih =>
+    simp only [mapME] at h
+    cases hx : f x with
+    | error e => simp [hx] at h
+    | ok y0 =>
+      cases hxs : mapME f xs with
+      | error e => simp [hx, hxs] at h
+      | ok ys0 =>
+        simp only [hx, hxs, Except.ok.injEq] at h
+        subst h
+        intro y hy
+        rcases List.mem_cons.mp hy with rfl | hy
+        · exact ⟨x, by simp, hx⟩
+        · obtain ⟨x', hx', hf⟩ := ih hxs y hy
+          exact ⟨x', by simp [hx'], hf⟩
+
+theorem rowsAt_runId {r : Run κ} {s : State} {i : Nat} {rows : List (BRow κ)} (h : rowsAt r s i = .ok rows) :
+    ∀ b ∈ rows, b.runId = r.runId := by
+  unfold rowsAt at h
+  cases hc : collectData s i with
+  | error e => simp [hc] at h
+  | ok t =>
+    obtain ⟨st, mv, ags⟩ := t
+    simp only [hc, Except.ok.injEq] at h
+    subst h
+    intro b hb
+    split at hb
+    · simp only [List.mem_singleton] at hb; subst hb; rfl
+    · obtain ⟨a, _, rfl⟩ := List.mem_map.mp hb; rfl
+
+theorem runRowsT_runId (cls : Kwargs κ → Prog) (maxSteps : Nat) (per : Int) (r : Run κ) :
+    ∀ b ∈ runRowsT cls maxSteps per r, b.runId = r.runId := by
+  intro b hb
+  unfold runRowsT at hb
+  cases hr : runRows cls maxSteps per r with
+  | error e => simp [hr] at hb
+  | ok rows =>
+    simp only [hr] at hb
+    unfold runRows at hr
+    cases hp : picks (runModel (cls r.kwargs) maxSteps).collSteps.length per with
+    | error e => simp [hp] at hr
+    | ok ps =>
+      simp only [hp] at hr
+      cases hm : mapME (rowsAt r (runModel (cls r.kwargs) maxSteps)) ps with
+      | error e => simp [hm] at hr
+      | ok chunks =>
+        simp only [hm, Except.ok.injEq] at hr
+        subst hr
+        obtain ⟨chunk, hc, hbc⟩ := List.mem_flatten.mp hb
+        obtain ⟨i, _, hi⟩ := mapME_mem hm chunk hc
+        exact rowsAt_runId hi b hbc
+
+theorem filter_flatMap_key (key : α → Nat) (bkey : β → Nat) (chunk : α → List β)
+    (hck : ∀ a, ∀ b ∈ chunk a, bkey b = key a) (l : List α) (hnd : (l.map key).Nodup) (a : α) (ha : a ∈ l) :
+    (l.flatMap chunk).filter (fun b => bkey b == key a) = chunk a := by
+  induction l with
+  | nil => simp at ha
+  | cons x xs ih =>
+    simp only [List.map_cons, List.nodup_cons] at hnd
+    rw [List.flatMap_cons, List.filter_append]
+    rcases List.mem_cons.mp ha with rfl | ha
+    · have h1 : (chunk a).filter (fun b => bkey b == key a) = chunk a := by
+        rw [List.filter_eq_self]; intro b hb; simp [hck a b hb]
+      have h2 : (xs.flatMap chunk).filter (fun b => bkey b == key a) = [] := by
+        rw [List.filter_eq_nil_iff]
+        intro b hb hk
+        obtain ⟨y, hy, hby⟩ := List.mem_flatMap.mp hb
+        have : key y = key a := by rw [← hck y b hby]; simpa using hk
+        exact hnd.1 (List.mem_map.mpr ⟨y, hy, this⟩)
+      rw [h1, h2, List.append_nil]
+    · have h1 : (chunk x).filter (fun b => bkey b == key a) = [] := by
+        rw [List.filter_eq_nil_iff]
+        intro b hb hk
+        have : key x = key a := by rw [← hck x b hb]; simpa using hk
+        exact hnd.1 (this ▸ List.mem_map.mpr ⟨a, ha, rfl⟩)
+      rw [h1, List.nil_append, ih hnd.2 ha]
+
+/-! ### degenerate limits -/
+
+theorem filter_mod_range (n p : Nat) (hn : 0 < n) (hp : n ≤ p) : (List.range n).filter (fun i => i % p = 0) = [0] := by
+  induction n with
+  | zero => omega
+  | succ n ih =>
+    rw [List.range_succ, List.filter_append]
+    by_cases h0 : n = 0
+    · subst h0; simp
+    · rw [ih (by omega) (by omega)]
+      have : n % p ≠ 0 := by rw [Nat.mod_eq_of_lt (by omega)]; exact h0
+      simp [this]
 
 end Mesa.Batch
